@@ -31,6 +31,16 @@ CHECKS = {
          "For every blob with a non-empty field subset of {a,b,c} and every enum with a non-empty variant subset of {A,B,C}, plain and generic (14 + 12 declarations): missing / unknown field in a literal, access and assignment of an absent field on a literal, variable, annotated parameter and through an unannotated parameter, a wrongly shaped blob for an annotation, unknown variant constructed / matched, case without else listing a strict subset or a superset; tuple index = length and beyond (literal, variable, parameter, deferred), tuple length mismatches in == + < annotation assignment argument; externblob instantiation; break/continue with no enclosing loop in the same function (including inside a closure inside a loop). All planted in every composition of statement contexts up to depth 2 / 3 x 4 placements; entry-point rules (no start, start not a function, wrong signature, start only in an imported file) as whole programs. Rejection + accepted twin required.",
          "Trusted: snippet generator and printer as for C03. The second observation of the property (accepted programs load as Lua) is decided by C06 on the program families.",
          "DESIGN.md §3.5, §4 C05"),
+ "C15": ("fault_enumeration",
+         "exhaustive fault enumeration: every local error kind x file x insertion point x preceding text shape x line-ending style, first error's file and line compared with the planted position",
+         "16 local error kinds (four syntax errors, unresolved names, duplicate global, assignment to global/local constant, operator / argument / annotation mismatch between literals, break/continue outside a loop, git conflict marker) are planted at 3 insertion points (top level, function body, nested block) of each of 3 files (main, an imported file, an imported file in a sub-folder), after each of 13 preceding text shapes repeated 1-3 times (blank lines, comments, non-ASCII comments and strings, string literals spanning 1-3 lines, tabs, a very long line, multi-line calls and lists; thorough: every ordered pair of shapes), with LF and CRLF line ends. The first returned error must carry the planted file and line; rendering it must not panic. Complete enumeration of the product.",
+         "Trusted: the scaffold builder's own line bookkeeping (the scaffold without a planted error must compile, else the run aborts as a machinery error). For a duplicate global either of the two definition lines is accepted. Only file and line are compared, not columns.",
+         "DESIGN.md §4 C15"),
+ "C16": ("exploration",
+         "bounded exhaustive repetition: every listed input x every seed of a controlled hash-seed set x history positions x processes/environments, outcomes compared for identity",
+         "Programs with several independent errors in one blob, enum, file or project (the shape the property singles out), valid single- and multi-file programs and the repository's own test programs are each compiled under every seed of a 16 (quick) / 64 (thorough) element seed set - one fresh thread per execution, SipHash keys supplied through the getrandom symbol std consults - and at history positions first / after 1 / after 7 other compilations in the same thread; additionally the built sylt binary is run repeatedly under two environments (NO_COLOR, cwd, HOME). Lua bytes or the full error list (kinds, files, spans, messages, rendered text) must be identical across all executions of one input.",
+         "The seed dimension is bounded controlled repetition, not exhaustive (2^128 keys); the evidence reports how many distinct iteration orders a probe map showed over the seed set. ANSI colour codes are stripped before process outputs are compared. Exhaustive only over the listed inputs.",
+         "DESIGN.md §3.7, §4 C16"),
 }
 
 checks = []
